@@ -33,6 +33,11 @@ def getitem_rules(model, R):
         c = t.body[0].value
         ok = chain(c.func) == ['self', '_Objects', 'frommembers'] and len(c.args) == 1 and name_is(c.args[0], p_items)
         qo = t.body[0].targets[0].id if isinstance(t.body[0].targets[0], ast.Name) else None
+    def is_frommembers(stmt):
+        return (isinstance(stmt, ast.Assign) and isinstance(stmt.value, ast.Call) and isinstance(stmt.value.func, ast.Attribute)
+                and stmt.value.func.attr == 'frommembers')
+    if not (len(t.body) == 1 and is_frommembers(t.body[0])):
+        raise Unrecognised('the objects attempt is not a frommembers(...) call', func=func, node=t.body[0] if t.body else t)
     R.check(ok, 'LOOKUP', func, t.body[0], 'the query is first read as a set of objects', f'self._Objects.frommembers({p_items})', src(t.body[0]))
     hs = t.handlers
     R.check(len(hs) == 1 and hs[0].type is not None and src(hs[0].type) == 'KeyError', 'LOOKUP', func, hs[0] if hs else t,
@@ -52,6 +57,8 @@ def getitem_rules(model, R):
             ok1 = (isinstance(a1.value, ast.Call) and chain(a1.value.func) == [qp, 'doubleprime'] and not a1.value.args
                    and isinstance(a1.targets[0], ast.Tuple) and S.sort(a1.targets[0]) == ('P', 'O'))
             ok = ok0 and ok1
+    if hs and not any(is_frommembers(s_) for s_ in hs[0].body):
+        raise Unrecognised('the properties attempt is not a frommembers(...) call', func=func, node=hs[0])
     R.check(ok, 'LOOKUP', func, hs[0] if hs else t, 'property query: (intent, extent) = doubleprime of exactly the query',
             'intent = self._Properties.frommembers(items); intent, extent = intent.doubleprime()', found[:140])
     ok = False
